@@ -192,15 +192,33 @@ pub fn check_named_objects(p: &PathCase, text: &str, want: &[u8]) -> Vec<Violati
 }
 
 pub fn check_malformed(text: &str, class: &str) -> Vec<Violation> {
-    let r = catch_unwind(AssertUnwindSafe(|| {
-        let mut v = Vec::new();
-        aml::Path::new(text).to_aml_bytes(&mut v);
-        v
-    }));
-    match r {
-        Err(_) => vec![],
-        Ok(bytes) => vec![vio("accepted-malformed", class.to_string(), format!("input={:?} emitted={:02x?}", text, &bytes[..bytes.len().min(24)]))],
+    let mut out = Vec::new();
+    // Path::new, the From<&str> conversion every constructor call site uses, and a named object
+    let ways: [(&str, Box<dyn Fn() -> Vec<u8>>); 3] = [
+        ("Path::new", Box::new(|| {
+            let mut v = Vec::new();
+            aml::Path::new(text).to_aml_bytes(&mut v);
+            v
+        })),
+        ("From<&str>", Box::new(|| {
+            let p: aml::Path = text.into();
+            let mut v = Vec::new();
+            p.to_aml_bytes(&mut v);
+            v
+        })),
+        ("Name::new(.into())", Box::new(|| {
+            let mut v = Vec::new();
+            aml::Name::new(text.into(), &1u8).to_aml_bytes(&mut v);
+            v
+        })),
+    ];
+    for (how, f) in ways.iter() {
+        if let Ok(bytes) = catch_unwind(AssertUnwindSafe(|| f())) {
+            out.push(vio("accepted-malformed", format!("{} via {}", class, how), format!("input={:?} emitted={:02x?}", text, &bytes[..bytes.len().min(24)])));
+            break;
+        }
     }
+    out
 }
 
 /// malformed strings: a segment of length 0..3 or 5..8 at every position of
